@@ -1423,7 +1423,7 @@ pub fn main(tier: Tier, seed: u64) -> Report {
     rep.assumptions = vec![
         "part stream uses helper threads and a real clock: schedules are not fully reproducible; a real-time time-out only counts if it reproduces on an immediate re-run with 5x the budget".into(),
         "an mpsc item-specific send failure marks the channel failed for later send calls; such later items are not part of the accepted sequence".into(),
-        "known finding F1 is excluded from the search by EXCLUDE_F1_SER_FAILS_AFTER_LAST_BYTE (generator) and KNOWN_F1_TOLERATE_ABANDONED_STREAMED_DELIVERY (oracle, cancelled or finally-failed streamed sends only)".into(),
+        "finding F1 (a streamed item abandoned by its sender was delivered) is repaired in the library (fix commit cb575a0); both switches that used to keep it out of the search (EXCLUDE_F1_SER_FAILS_AFTER_LAST_BYTE, KNOWN_F1_TOLERATE_ABANDONED_STREAMED_DELIVERY) are off".into(),
         "the effective receive-side size limit of some kinds is the sender's limit (mpsc with remote sender); the oracle only requires delivery of items not larger than the smaller of both limits".into(),
     ];
     for (part, stream) in [("buf", false), ("stream", true)] {
